@@ -15,7 +15,7 @@ def parse_values(text):
         ln = ln.strip()
         if not ln or ln[0] == "#":
             continue
-        name, _, val = ln.partition(":")
+        name, _, val = ln.rpartition(":")
         if not _:
             raise ParseError("value line without ':' : %r" % ln)
         if name in out:
